@@ -134,7 +134,48 @@ Section InsertChain.
         end
       end
     end.
+
+  (* ---- the insert lock. chain.AcquireInsert serialises the writers of a node (the pillar producing a momentum, the
+     fetcher inserting an announced momentum, the downloader importing a batch, the handler pooling broadcast blocks).
+     A writer that is served first is a state transformer [w]; InsertChain takes the lock BEFORE it reads anything, so
+     all it decides (known prefix, extension or side chain, fork point, the 30-momentum window, strictly longer) is
+     decided on [w st], the state under the lock, which is also the state RollbackTo and the insertion act on. *)
+  Definition insert_chain_locked (w : nstate -> nstate) (st : nstate) (ds : list dmom) : nstate * (ic_res * nstate) :=
+    let st1 := w st in (st1, insert_chain (fst st1) (snd st1) ds).
+
+  (* The variant that reads before it locks (kept only to show what the order is needed for): the frontier store and
+     the known prefix are taken from a snapshot [snap] of the chain, the other writer runs, then the window and the
+     length are judged on the snapshot while the rollback and the insertion act on the real chain [c]. *)
+  Definition insert_chain_stale (snap c : list smom) (pool : list blk) (ds : list dmom) : ic_res * nstate :=
+    match ds with
+    | [] => (ICErr 0 EEmpty, (c, pool))
+    | _ :: _ =>
+      let '(start, rest) := skip_known snap ds 0 in
+      match rest with
+      | [] => (ICOk, (c, pool))
+      | head :: _ =>
+        let tail := last rest head in
+        match frontier snap with
+        | None => (ICErr 0 ENoFrontier, (c, pool))
+        | Some fr =>
+          if prev_is (d_mom head) fr then apply_all c pool rest start
+          else
+            match by_height snap (u64 (s_height (d_mom head) - 1)) with
+            | None => (ICErr 0 ELink, (c, pool))
+            | Some target =>
+              if negb (prev_is (d_mom head) target) then (ICErr 0 ELink, (c, pool))
+              else if 30 <? u64 (s_height fr - s_height target) then (ICErr 0 ETooFar, (c, pool))
+              else if s_height (d_mom tail) <=? s_height fr then (ICErr 0 ENotLonger, (c, pool))
+              else apply_all (rollback_to c (s_height target)) (if clears then [] else pool) rest start
+            end
+        end
+      end
+    end.
 End InsertChain.
+
+(* the writer "own pillar": the node produces momentums on its frontier, each confirming blocks of its pool *)
+Definition produce (st : nstate) (d : dmom) : nstate := (fst st ++ [d_mom d], confirm (d_blocks d) (snd st)).
+Definition produce_all (ds : list dmom) (st : nstate) : nstate := fold_left produce ds st.
 
 (* a well-formed local chain: consecutive heights in [1, 2^64), each momentum names its predecessor *)
 Fixpoint linked (c : list smom) : Prop :=
